@@ -351,23 +351,69 @@ def replay_law(ctx, obj):
 
 # -------------------------------------------------------------------------------- C07
 def sign_stream(ctx):
+    """Batched: the Boolean forms, the domains and the Boolean model values of all cases are obtained in three driver calls."""
     rng = ctx.subrng("sign-c")
-    for _ in range(ctx.budget(80, 1500)):
+    cases = []
+    for k in range(ctx.budget(400, 4000)):
         mon = rng.choice(["offc", "offc", "onc"])
         allow = (DENSE_ON if mon == "onc" else DENSE_OFF) - {"iffxor"} - ({"since", "bsince"} if mon == "onc" else set())
-        g = DGen(rng, VARS[:2], allow, max_bound=rng.choice([2, 4]))
-        f = g.formula(rng.choice([1, 2, 3]))
+        g = DGen(rng, VARS[:2], allow, max_bound=rng.choice([2, 4, 6]))
+        if k % 3 == 0 and mon == "offc":
+            # one bounded binary temporal operator with a positive lower bound over predicates (the decomposition of
+            # until[a,b] / since[a,b] into eventually/always parts), possibly negated or under another operator
+            a = rng.randint(1, 4)
+            f = ("tb2", rng.choice(["until", "since"]), a, a + rng.randint(0, 4), g.formula(rng.choice([0, 1])), g.formula(rng.choice([0, 1])))
+            if rng.random() < 0.3:
+                f = ("u", "not", f)
+        else:
+            f = g.formula(rng.choice([1, 2, 3]))
         vs = F.variables(f) or ["x"]
-        sig = gen_signals(rng, vs)
+        cases.append((mon, f, gen_signals(rng, vs)))
+    bforms = [F.from_proto(o[3:]) for o in common.driver_run(["ia | outRob | %s | %s" % (",".join(F.variables(f)), F.to_proto(f))
+                                                              for _, f, _ in cases])]
+    doms = model_query([(f, sig, []) for _, f, sig in cases])
+    pend = []
+    for (mon, f, sig), bf, (_, dom, end) in zip(cases, bforms, doms):
+        if end is None:
+            end = max([s_[-1][0] for s_ in sig.values()] + [dom])
         ctx.evaluations += 1
         ctx.count("monitor:" + mon)
-        v = check_sign(ctx, mon, f, sig)
+        text, out = eval_offline(f, sig) if mon == "offc" else online_flat(f, sig)
+        rep = {"monitor": mon, "spec": text, "formula": F.to_proto(f), "signals": sig_rep(sig), "impl": out}
+        if out[0] != "ok":
+            ctx.violations.append(Violation("%s raised %r on %s" % (mon, out[1:], text), rep, stream="sign-c"))
+            if len(ctx.violations) >= 3:
+                return
+            continue
+        a = samples_of(out[1])
+        if not a:
+            continue
+        lo, hi = (dom, end) if mon == "offc" else (a[0][0], a[-1][0])
+        qs = [q for q in query_times(sig, f, [t for t, _ in a], dom, end) if lo <= q <= hi]
+        pend.append((mon, f, sig, bf, a, qs, rep, text))
+    sats = model_query([(bf, sig, qs) for (_, _, sig, bf, _, qs, _, _) in pend])
+    for (mon, f, sig, bf, a, qs, rep, text), (sat, _, _) in zip(pend, sats):
+        v = sign_verdict(ctx, mon, a, qs, sat, rep, text)
         if v is None:
             ctx.traces_validated += 1
         else:
             ctx.violations.append(v)
             if len(ctx.violations) >= 3:
                 return
+
+
+def sign_verdict(ctx, mon, a, qs, sat, rep, text):
+    for q, s in zip(qs, sat):
+        v = step_value(a, q)
+        if v is None or s is None or v != v:
+            continue
+        if (v > 0 and s != common.INF) or (v < 0 and s != -common.INF):
+            rep["model_boolean"] = [[str(x), y] for x, y in zip(qs, sat)]
+            return Violation("%s monitor: value %r at t=%s but the specification is %s there: %s"
+                             % (mon, v, q, "satisfied" if s == common.INF else "violated", text), rep, stream="sign-c")
+    if any(step_value(a, q) not in (common.INF, -common.INF, 0.0, None) for q in qs):
+        ctx.nontrivial.add((mon, text, str(rep["signals"])))
+    return None
 
 
 def boolean_form(f):
@@ -524,7 +570,7 @@ def replay_reset(ctx, obj):
 
 
 # -------------------------------------------------------------------------------- C17
-DENSE_UNSUPPORTED_BOTH = [("t1", "prev"), ("t1", "next"), ("t1", "rise"), ("t1", "fall")]
+DENSE_UNSUPPORTED_BOTH = [("t1", "prev"), ("t1", "next"), ("t1", "sprev"), ("t1", "snext"), ("t1", "rise"), ("t1", "fall")]
 DENSE_UNSUPPORTED_ONLINE = [("t1", "ev"), ("t1", "alw"), ("t2", "until"), ("tb1", "ev"), ("tb1", "alw"), ("tb2", "until")]
 
 
